@@ -445,6 +445,16 @@ impl Property for C02 {
         if !r.verdict.is_ok() || r.out != expected {
             return fail("raw::Lzma2Decoder", &r);
         }
+        // a re-used decoder object: a failing decode of a prefix of this stream, reset(), then the stream
+        if enc.bytes.len() <= 300_000 {
+            let cut = 1 + (h as usize >> 7) % enc.bytes.len().max(2).saturating_sub(1);
+            st.eval();
+            st.class("also: raw decoder re-used after a failed decode + reset");
+            let r = sut::raw_lzma2_reused(&enc.bytes[..cut.min(enc.bytes.len())], &enc.bytes, &ReaderKind::Slice, &Io::default());
+            if !r.verdict.is_ok() || r.out != expected {
+                return fail("raw::Lzma2Decoder (re-used after a truncated decode and reset)", &r);
+            }
+        }
         st.eval();
         let xz = xz_wrap(&enc.bytes, &expected, c.xz_check);
         let r = sut::xz_decompress(&xz, &ReaderKind::Slice, &Io::default());
